@@ -95,7 +95,7 @@ def variant_target(fn, b, name):
     return None
 
 
-def switches_on_call_result(fn, call_bb):
+def switches_on_call_result(fn, call_bb, through_payload=False):
     """switch blocks whose subject is (a copy/field of) the destination of the call at call_bb,
     possibly through Try::branch / Option::map-like single-step wrappers is NOT followed here."""
     t = fn.term(call_bb)
@@ -108,9 +108,22 @@ def switches_on_call_result(fn, call_bb):
         if s["root"] is None:
             continue
         r = s["root"]
-        if r == d or fn.copy_root(r) == d:
+        if r == d or fn.copy_root(r) == d or (through_payload and payload_root(fn, r) == d):
             out.append((b, s))
     return out
+
+
+def payload_root(fn, local, depth=0):
+    """follow `_a = move _b` and `_a = move ((_b as Variant).k)` chains of single-def locals: the local whose (part of a) value `local`
+    carries (the `let site = match r { Read(site) => site, .. }` idiom re-binds an enum payload before it is matched again)"""
+    if depth > 16:
+        return local
+    d = fn.single_def(local)
+    if d and d[0] == "assign" and d[3]["k"] == "use":
+        p = op_place(d[3]["op"])
+        if p is not None and all(e[0] in ("field", "downcast") for e in p[1]):
+            return payload_root(fn, p[0], depth + 1)
+    return local
 
 
 def try_branch_of(fn, call_bb):
@@ -126,6 +139,21 @@ def try_branch_of(fn, call_bb):
                 for sb, s in switches_on_call_result(fn, b):
                     st = fn.term(sb)
                     return (b, sb, edge_target(st, 0), edge_target(st, 1))
+    return None
+
+
+def option_outcomes(fn, call_bb):
+    """how the Option/Result returned by the call at call_bb is told apart: (switch_bb, success_target, failure_target) for
+    `call(..)?` (Try::branch), `match call(..) { Some/Ok(x) => .., None/Err(_) => .. }` and `if let`; None if not recognised"""
+    tb = try_branch_of(fn, call_bb)
+    if tb is not None:
+        return (tb[1], tb[2], tb[3])
+    for sb, s in switches_on_call_result(fn, call_bb):
+        if s["kind"] == "discr" and s["variants"]:
+            good = [nm for nm in s["variants"].values() if nm in ("Some", "Ok")]
+            bad = [nm for nm in s["variants"].values() if nm in ("None", "Err")]
+            if len(good) == 1 and len(bad) == 1:
+                return (sb, variant_target(fn, sb, good[0]), variant_target(fn, sb, bad[0]))
     return None
 
 
@@ -587,6 +615,17 @@ def arm_region(fn, sw_bb, target):
 # ------------------------------------------------------------------------------------
 # closures: captured upvars resolved to the parent's places (DESIGN 3.2a)
 # ------------------------------------------------------------------------------------
+def closure_of_operand(fn, op):
+    """path of the closure body whose value the operand carries (a closure constructed in fn), else None"""
+    l = op_local(op)
+    if l is None:
+        return None
+    d = fn.single_def(fn.copy_root(l))
+    if d and d[0] == "assign" and d[3]["k"] == "aggregate" and d[3].get("akind") == "closure":
+        return d[3]["closure"]
+    return None
+
+
 def closure_captures(parent, closure_path):
     """list (by upvar index) of the parent's places captured by the closure constructed in `parent`"""
     for b, i, p, rv, s in parent.assigns():
@@ -712,4 +751,92 @@ def each_element_update(prog, f, want_field_owner=None):
             uncond = sw_all == [sb] and exits == [(sb, none_t)] and f.dominates(b, none_t)
             return {"kind": "loop", "fields": info["fields"], "adaptors": adaptors, "store": store, "closure": None, "bb": b,
                     "unconditional": uncond, "store_fn": f, "payload": payload}
+    return None
+
+
+# ------------------------------------------------------------------------------------
+# constant upper bounds implied by dominating comparisons
+# ------------------------------------------------------------------------------------
+def _const_int_of(fn, op):
+    """integer constant carried by the operand: a literal, or a lossless conversion (`usize::from(u16::MAX)`) of one"""
+    c = const_of(fn, op)
+    if c is not None and isinstance(c.get("val"), int) and not isinstance(c.get("val"), bool):
+        return c["val"]
+    l = op_local(op)
+    d = fn.single_def(fn.copy_root(l)) if l is not None else None
+    if d and d[0] == "call" and (d[2]["callee"].get("path") or "") in ("core::convert::From::from", "core::convert::Into::into") and d[2]["args"]:
+        return _const_int_of(fn, d[2]["args"][0])
+    if d and d[0] == "assign" and d[3]["k"] == "cast":
+        return _const_int_of(fn, d[3]["op"])
+    return None
+
+
+def value_id(fn, op):
+    """identity of the value an operand carries, up to copies: ("local", root) or, when the root is a single read of a place whose base local
+    is defined once (a match binding `(_2 as Ok).0` read by value and through a reference in the guard), ("place", canonical place)"""
+    l = op_local(op)
+    if l is None:
+        p = op_place(op)
+        if p is None:
+            return None
+        cp = fn.canon(p)
+        return ("place", cp) if len(fn.defs.get(cp[0], [])) <= 1 else None
+    r = fn.copy_root(l)
+    d = fn.single_def(r)
+    if d and d[0] == "assign" and d[3]["k"] == "use":
+        p = op_place(d[3]["op"])
+        if p is not None and p[1]:
+            cp = fn.canon(p)
+            if len(fn.defs.get(cp[0], [])) <= 1:
+                return ("place", cp)
+    return ("local", r)
+
+
+def implied_upper_bound(fn, b, value_op):
+    """smallest constant c such that `value <= c` is implied at block b by a dominating integer comparison edge, else None.
+    Recognises v <= c, v < c, c >= v, c > v on the true edge and v > c, v >= c, c < v, c <= v on the false edge."""
+    vr = value_id(fn, value_op)
+    if vr is None:
+        return None
+    best = None
+    for sb, st in fn.switches():
+        s = switch_subject(fn, sb)
+        if s["kind"] != "value" or s["root"] is None:
+            continue
+        d = fn.single_def(s["root"])
+        if not (d and d[0] == "assign" and d[3]["k"] == "binop" and d[3]["op"] in ("Le", "Lt", "Gt", "Ge")):
+            continue
+        op, l, r = d[3]["op"], d[3]["l"], d[3]["r"]
+        ll, rl = op_local(l), op_local(r)
+        t_true, t_false = st["otherwise"], edge_target(st, 0)
+        cand = None
+        if value_id(fn, l) == vr:
+            c = _const_int_of(fn, r)
+            if c is not None:
+                cand = {"Le": (t_true, c), "Lt": (t_true, c - 1), "Gt": (t_false, c), "Ge": (t_false, c - 1)}[op]
+        elif value_id(fn, r) == vr:
+            c = _const_int_of(fn, l)
+            if c is not None:
+                cand = {"Ge": (t_true, c), "Gt": (t_true, c - 1), "Lt": (t_false, c), "Le": (t_false, c - 1)}[op]
+        if cand and dominated_by_edge(fn, sb, cand[0], b):
+            best = cand[1] if best is None else min(best, cand[1])
+    return best
+
+
+def binop_def(fn, op, depth=0):
+    """the binary operation computing the operand's value, through copies and the `.0` of a checked `<Op>WithOverflow` pair; else None"""
+    l = op_local(op)
+    if l is None or depth > 8:
+        p = op_place(op)
+        if p and len(p[1]) == 1 and p[1][0][0] == "field" and p[1][0][1] == 0:
+            d = fn.single_def(p[0])
+            if d and d[0] == "assign" and d[3]["k"] == "binop" and d[3]["op"].endswith("WithOverflow"):
+                return d[3]
+        return None
+    d = fn.single_def(fn.copy_root(l))
+    if d and d[0] == "assign":
+        if d[3]["k"] == "binop":
+            return d[3]
+        if d[3]["k"] == "use":
+            return binop_def(fn, d[3]["op"], depth + 1)
     return None
